@@ -65,4 +65,108 @@ theorem finish_shift (f : Nat → Nat) (id : Nat) (nd : Node) (v : Val) :
           simp [Val.shift, Val.shiftList, Val.truthy, Val.flatten, Val.flattenList,
             Val.flattenList_shift, Val.shiftList_append]
 
+
+/-! ## relations -/
+
+def NoEol (ins : List Char) : Prop := '\n' ∉ ins ∧ '\r' ∉ ins
+
+/-- every mode the state can restore skips the inserted characters -/
+structure Inv (ins : List Char) (s : PState) : Prop where
+  skip : s.skipws = true
+  ws : ∀ c ∈ ins, c ∈ s.ws
+  real : ∀ c ∈ ins, c ∈ s.realWs
+  eol : s.eolterm = true → NoEol ins
+
+def NR (p k : Nat) : Option Nat → Option Nat → Prop
+  | .none, .none => True
+  | some a, some b => R p k a b
+  | _, _ => False
+
+/-- parser states of the run on the original and on the extended input that correspond -/
+structure SR (ins : List Char) (p k : Nat) (s s' : PState) : Prop where
+  inv : Inv ins s
+  pos : R p k s.pos s'.pos
+  skipws : s'.skipws = s.skipws
+  ws : s'.ws = s.ws
+  realWs : s'.realWs = s.realWs
+  eolterm : s'.eolterm = s.eolterm
+  inC : s'.inComments = s.inComments
+  cp : s'.commentPos = s.commentPos.map (fun e => (sh p k e.1, sh p k e.2))
+  nm : NR p k s.nm s'.nm
+
+/-- exact correspondence of the positions -/
+def Ex (p k : Nat) (s s' : PState) : Prop := s'.pos = sh p k s.pos
+
+inductive ResRel (p k : Nat) : Res → Res → Prop
+  | ok (v : Val) : ResRel p k (.ok v) (.ok (v.shift (sh p k)))
+  | nomatch : ResRel p k .nomatch .nomatch
+  | fuel : ResRel p k .fuel .fuel
+  | bad : ResRel p k .bad .bad
+
+def PR (ins : List Char) (p k : Nat) (x y : Res × PState) : Prop :=
+  ResRel p k x.1 y.1 ∧ SR ins p k x.2 y.2
+
+/-- related sub-parsers: related states to related results; a NoMatch leaves exactly
+corresponding positions when it was entered at exactly corresponding positions -/
+def SPR (ins : List Char) (p k : Nat) (q q' : SubParser) : Prop :=
+  ∀ id s s', SR ins p k s s' →
+    PR ins p k (q id s) (q' id s') ∧
+    (Ex p k s s' → (q id s).1 = .nomatch → Ex p k (q id s).2 (q' id s').2)
+
+theorem R.of_ex {p k : Nat} {s s' : PState} (h : Ex p k s s') : R p k s.pos s'.pos := Or.inl h
+
+theorem SR.withPos {ins : List Char} {p k : Nat} {s s' : PState} (h : SR ins p k s s') {a a' : Nat}
+    (ha : R p k a a') : SR ins p k { s with pos := a } { s' with pos := a' } :=
+  ⟨⟨h.inv.skip, h.inv.ws, h.inv.real, h.inv.eol⟩, ha, h.skipws, h.ws, h.realWs, h.eolterm, h.inC, h.cp, h.nm⟩
+
+theorem R.max {p k a a' b b' : Nat} (ha : R p k a a') (hb : R p k b b') :
+    (a > b → a' > b') ∧ (¬ a > b → a' > b' → R p k b a') := by
+  unfold R Peg.sh at *
+  constructor
+  · intro h
+    rcases ha with ha | ⟨ha, ha'⟩ <;> rcases hb with hb | ⟨hb, hb'⟩ <;>
+      (try split at ha) <;> (try split at hb) <;> omega
+  · intro h h'
+    rcases ha with ha | ⟨ha, ha'⟩ <;> rcases hb with hb | ⟨hb, hb'⟩ <;>
+      (try split at ha) <;> (try split at hb) <;> (try split) <;> omega
+
+theorem SR.withNm {ins : List Char} {p k : Nat} {s s' : PState} (h : SR ins p k s s') {a a' : Nat}
+    (ha : R p k a a') : SR ins p k { s with nm := some a } { s' with nm := some a' } :=
+  ⟨⟨h.inv.skip, h.inv.ws, h.inv.real, h.inv.eol⟩, h.pos, h.skipws, h.ws, h.realWs, h.eolterm, h.inC, h.cp, ha⟩
+
+theorem SR.nmRaise {ins : List Char} {p k : Nat} {s s' : PState} (h : SR ins p k s s') {a a' : Nat}
+    (ha : R p k a a') : SR ins p k (s.nmRaise a) (s'.nmRaise a') := by
+  obtain ⟨hinv, hpos, h1, h2, h3, h4, h5, h6, h7⟩ := h
+  rcases s with ⟨pos, skipws, ws, realWs, eolterm, cp, nm, inC, cache⟩
+  rcases s' with ⟨pos', skipws', ws', realWs', eolterm', cp', nm', inC', cache'⟩
+  simp only at h1 h2 h3 h4 h5 h6 hpos h7
+  subst h1 h2 h3 h4 h5 h6
+  have hI : ∀ x y, Inv ins ⟨pos, skipws', ws', realWs', eolterm', cp, x, inC', y⟩ :=
+    fun _ _ => ⟨hinv.skip, hinv.ws, hinv.real, hinv.eol⟩
+  unfold PState.nmRaise
+  cases nm with
+  | none =>
+    cases nm' with
+    | none => exact ⟨hI _ _, hpos, rfl, rfl, rfl, rfl, rfl, rfl, ha⟩
+    | some b' => exact absurd h7 (by simp [NR])
+  | some b =>
+    cases nm' with
+    | none => exact absurd h7 (by simp [NR])
+    | some b' =>
+      have hb : R p k b b' := h7
+      obtain ⟨m1, m2⟩ := R.max ha hb
+      cases inC'
+      · simp only [Option.isNone_some, Bool.false_or, Bool.not_false, if_true]
+        by_cases hab : a > b
+        · simp only [hab, m1 hab, if_true]
+          exact ⟨hI _ _, hpos, rfl, rfl, rfl, rfl, rfl, rfl, ha⟩
+        · simp only [hab, if_false]
+          by_cases hab' : a' > b'
+          · simp only [hab', if_true]
+            exact ⟨hI _ _, hpos, rfl, rfl, rfl, rfl, rfl, rfl, m2 hab hab'⟩
+          · simp only [hab', if_false]
+            exact ⟨hI _ _, hpos, rfl, rfl, rfl, rfl, rfl, rfl, hb⟩
+      · simp only [Option.isNone_some, Bool.false_or, Bool.not_true, Bool.false_eq_true, if_false]
+        exact ⟨hI _ _, hpos, rfl, rfl, rfl, rfl, rfl, rfl, hb⟩
+
 end Peg
